@@ -87,6 +87,12 @@ static std::vector<OptRange> util_vec(const SetDimension &d, const std::vector<d
 static std::vector<OptRange> util_vec(const DataFrameDimension &d, const std::vector<double> &s, const std::vector<double> &e, RangeMatch rm) {
     return util::positionToIndex(s, e, rm, d); }
 
+// vector overload with ONE UNIT PER PAIR (the axes of this harness are in ms)
+static std::vector<OptRange> util_vec_units(const SampledDimension &d, const std::vector<double> &s, const std::vector<double> &e, const std::vector<std::string> &u, RangeMatch rm) { return util::positionToIndex(s, e, u, rm, d); }
+static std::vector<OptRange> util_vec_units(const RangeDimension &d, const std::vector<double> &s, const std::vector<double> &e, const std::vector<std::string> &u, RangeMatch rm) { return util::positionToIndex(s, e, u, rm, d); }
+static std::vector<OptRange> util_vec_units(const SetDimension &, const std::vector<double> &, const std::vector<double> &, const std::vector<std::string> &, RangeMatch) { return {}; }
+static std::vector<OptRange> util_vec_units(const DataFrameDimension &, const std::vector<double> &, const std::vector<double> &, const std::vector<std::string> &, RangeMatch) { return {}; }
+
 struct Axis {
     std::string kind, name;   // kind: sampled / range / set / dataframe
     std::vector<double> x;    // reference coordinates
@@ -139,8 +145,26 @@ static void check_pairs(const Axis &ax, const Dim &dim, const Dimension &gdim, c
         const char *rn = rm == RangeMatch::Inclusive ? "Inclusive" : "Exclusive";
         std::vector<OptRange> viav = dim.indexOf(ss, ee, rm);
         std::vector<OptRange> viau = util_vec(dim, ss, ee, rm);
-        (void)unit_overload; (void)gdim;
+        (void)gdim;
         vf::count("pair_calls", 2 * (long)ss.size());
+        if (unit_overload) {
+            // the same pairs, each with its own unit: "none", the axis unit "ms", or "s" with the position divided by 1000 where
+            // that division is exact (1000.0 is the exact factor s -> ms); every pair must convert exactly as before
+            std::vector<double> s2 = ss, e2 = ee; std::vector<std::string> uu(ss.size(), "none");
+            for (size_t k = 0; k < ss.size(); k++) {
+                if (k % 3 == 1) uu[k] = "ms";
+                else if (k % 3 == 2) { double qs = ss[k] / 1000.0, qe = ee[k] / 1000.0; if (qs * 1000.0 == ss[k] && qe * 1000.0 == ee[k]) { uu[k] = "s"; s2[k] = qs; e2[k] = qe; } }
+            }
+            std::vector<OptRange> viam = util_vec_units(dim, s2, e2, uu, rm);
+            vf::count("pair_calls", (long)ss.size());
+            if (viam.size() != ss.size()) vf::violation("C07|util::positionToIndex(starts,ends,units," + std::string(rn) + "," + ax.kind + ")|one unit per pair|result size", ax.name);
+            else for (size_t k = 0; k < ss.size(); k++) {
+                OptRange want = ref_range(ax.x, ss[k], ee[k], rm);
+                if (viam[k] != want)
+                    vf::violation("C07|util::positionToIndex(starts,ends,units," + std::string(rn) + "," + ax.kind + ")|one unit per pair, pair in " + uu[k] + "|" + rdev(viam[k], want),
+                                  ax.name + " pair " + std::to_string(k) + " start=" + vf::hexd(s2[k]) + " end=" + vf::hexd(e2[k]) + " unit " + uu[k] + ": got " + ors(viam[k]) + " expected " + ors(want));
+            }
+        }
         if (viav.size() != ss.size() || viau.size() != ss.size()) {
             vf::violation("C07|" + ax.kind + "::indexOf(vector,vector)|result size", ax.name);
             continue;
@@ -213,7 +237,7 @@ int main(int argc, char **argv) {
         std::string name = "sampled(interval=" + vf::hexd(si) + ",offset=" + vf::hexd(off) + ")";
         vf::case_desc(name);
         DataArray da = b.createDataArray("s" + std::to_string(an++) + "_" + std::to_string(ci), "t", DataType::Double, NDSize({4}));
-        SampledDimension sd = da.appendSampledDimension(si, "", "", off);
+        SampledDimension sd = da.appendSampledDimension(si, "", "ms", off);
         Dimension gd = da.getDimension(1);
         // the coordinates the library reports, and their agreement with offset + i*interval
         Axis ax; ax.kind = "SampledDimension"; ax.name = name; ax.bounded = false;
@@ -282,6 +306,7 @@ int main(int argc, char **argv) {
         vf::case_desc(name);
         DataArray da = b.createDataArray("r" + std::to_string(tv), "t", DataType::Double, NDSize({t.size()}));
         RangeDimension rd = da.appendRangeDimension(t);
+        rd.unit("ms");
         Dimension gd = da.getDimension(1);
         Axis ax; ax.kind = "RangeDimension"; ax.name = name; ax.bounded = true; ax.x = rd.ticks();
         if (ax.x != t) { vf::violation("C07|RangeDimension::ticks|ticks not stored as given", name); continue; }
